@@ -914,6 +914,12 @@ func (s *TxStore) Rollback(tx mwdb.DBTransaction, height uint64) error {
 				if err != nil {
 					return err
 				}
+				if cred == nil && txInBlockRecord(rbBlock, &prevOut.Hash) {
+					// The coin was created by a transaction of this very block. A rescan appends
+					// transactions to a block record after those recorded earlier, so the creator
+					// may have been rolled back (and its credits deleted) before this spender.
+					continue
+				}
 				if cred == nil {
 					logging.CPrint(logging.ERROR, "unexpected unspend non-existence credit",
 						logging.LogFormat{
@@ -1157,6 +1163,16 @@ func (s *TxStore) Rollback(tx mwdb.DBTransaction, height uint64) error {
 	}
 
 	return s.utxoStore.UpdateMinedBalances(tx, allMined)
+}
+
+// txInBlockRecord reports whether the block record lists the transaction.
+func txInBlockRecord(rec *blockRecord, hash *wire.Hash) bool {
+	for i := range rec.transactions {
+		if rec.transactions[i] == *hash {
+			return true
+		}
+	}
+	return false
 }
 
 func (s *TxStore) removableTxForRemoveWallet(msgTx *wire.MsgTx, scriptHashSet map[string]struct{}) (bool, error) {
